@@ -30,6 +30,7 @@ def dispatch (stream payload : String) : String × String × String :=
   else if stream == "opts" then runOpts payload
   else if ["frozen", "inert", "initonly", "queries", "nestedro"].contains stream then runSweep payload
   else if stream == "freepol" then runFreePol payload
+  else if stream == "sealpol" then runSealPol payload
   else if stream == "nilpat" then runDefrag payload
   else if stream == "revealtrees" then runReveal payload
   else if stream == "sched" then runSched payload
